@@ -34,4 +34,33 @@ theorem state_arithmetic :
     ∧ Gen.AutoInc.aisMerge = "{\n\tif s > other {\n\t\treturn s\n\t}\n\treturn other\n}"
     ∧ AutoInc.maxU64 = 2 ^ 64 - 1 := by decide
 
+/-- **The atomicity assumption for lock modes 0 (traditional) and 1 (consecutive), as a fact about
+the source.**  `Next` takes no lock itself in these modes (`next_lock_region`: its lock is guarded by
+`a.lockMode == LockMode_Interleaved`); instead the engine's insert executor (go-mysql-server
+`BaseBuilder.buildInsertInto`, the version pinned by /repo's go.mod) reads
+`innodb_autoinc_lock_mode` and, when the statement needs a generated value
+(`ii.FirstGeneratedAutoIncRowIdx >= 0`) and `lockMode != 2`, calls `AcquireAutoIncrementLock` before
+the insert iterator is built; dolt's table writer forwards that to `SequenceTracker.AcquireLock`,
+which takes the *same* per-table `a.mm.Lock` that `Set/AddNewRelation/DropRelation` take (and
+panics in interleaved mode); the iterator releases it in `Close`.  The writer's
+`GetNextAutoIncrementValue` is the only caller of `Next`.  So for statements that generate values,
+every `Next` of the statement runs inside that lock: the model's steps are atomic in modes 0/1 as
+well, with the whole statement as one critical section.
+
+What this fact does *not* give: a statement that supplies every id explicitly
+(`FirstGeneratedAutoIncRowIdx < 0`) takes no statement lock, and `Next` takes none in modes 0/1, so
+in those (non-default) modes the load-compare-store of an explicit id is not protected against a
+concurrent generated insert.  (`AcquireLock` also does not lower-case the table name, unlike
+`Next/Set`.)  Recorded in design/C28.md as outside the proof's assumption. -/
+theorem statement_lock_modes :
+    Gen.AutoInc.gmsStatementLockConditions = ["ii.FirstGeneratedAutoIncRowIdx >= 0", "lockMode != 2"]
+    ∧ Gen.AutoInc.gmsReadsLockModeVariable = true
+    ∧ Gen.AutoInc.gmsUnlockerCalledIn = ["Close"]
+    ∧ Gen.AutoInc.gmsLockModeDefault = "int64(2)"
+    ∧ Gen.AutoInc.writerAcquireCalls = ["w.aiTracker.AcquireLock"]
+    ∧ Gen.AutoInc.writerNextCalls = ["w.aiTracker.Next"]
+    ∧ Gen.AutoInc.acquireLockCalls = ["a.waitForInit", "panic", "a.mm.Lock"]
+    ∧ Gen.AutoInc.acquireLockPanicsWhen = ["a.lockMode == LockMode_Interleaved"]
+    ∧ Gen.AutoInc.LockMode_Interleaved = 2 := by decide
+
 end DoltVerif.Tie.AutoInc
